@@ -63,6 +63,19 @@ pub fn shards(lab: &Lab, max_src: usize, hash_lens: &[usize]) -> Vec<Shard> {
     v
 }
 
+/// Longer sources with repeated chunks in patterns the depth bound does not reach: runs of one chunk, a run
+/// and a later separate occurrence, two chunks alternating (what a per-chunk list of offsets looks like matters).
+pub fn dup_pattern_shards(lab: &Lab) -> Vec<Shard> {
+    let pats: [&[usize]; 7] = [&[0, 0, 1, 0, 2], &[0, 0, 1, 0, 2, 1], &[0, 1, 0, 0, 2], &[1, 0, 0, 2, 0, 0], &[0, 0, 0, 1], &[0, 1, 1, 1, 0, 2], &[0, 1, 0, 1, 0, 1, 2]];
+    let mut v = vec![];
+    for ui in 0..lab.unis.len() {
+        for p in pats {
+            v.push(Shard { ui, hash_len: 64, src: p.to_vec() });
+        }
+    }
+    v
+}
+
 pub fn shard_arch(lab: &Lab, sh: &Shard, rt: &tokio::runtime::Runtime) -> Result<Arch, String> {
     let (u, comp) = &lab.unis[sh.ui];
     let source = u.concat(&u.words, &sh.src);
@@ -416,7 +429,9 @@ pub fn c02(rep: &mut Report) {
     let thorough = rep.thorough();
     let lab = Lab::new(thorough);
     let n = if thorough { 4 } else { 3 };
-    let sh = shards(&lab, if thorough { 4 } else { 3 }, &[64, 8, 4]);
+    let mut sh = shards(&lab, if thorough { 4 } else { 3 }, &[64, 8, 4]);
+    let n_regular = sh.len();
+    sh.extend(dup_pattern_shards(&lab));
     let (lab_ref, sh_ref) = (&lab, &sh);
     let a = par_shards(sh.len(), threads(), |i| {
         let mut agg = Agg::default();
@@ -427,7 +442,8 @@ pub fn c02(rep: &mut Report) {
             Err(e) => machinery(e),
         };
         let (u, _) = &lab_ref.unis[s.ui];
-        let mut sets = seed_sets(u, n);
+        // the duplicate-pattern sources take the single seeds of <= 2 letters and the pairs
+        let mut sets = seed_sets(u, if i >= n_regular { 2 } else { n });
         sets.push(vec![arch.source.clone()]); // seed = the source itself
         sets.push(vec![arch.source.clone(), arch.source.clone()]);
         for seeds in sets {
@@ -452,7 +468,7 @@ pub fn c02(rep: &mut Report) {
     rep.set("distinct_nontrivial", json!(rep.agg.distinct_count("outcomes")));
     rep.set("exhaustive", json!(true));
     rep.set("universes", lab.describe());
-    rep.set("rule", json!(format!("CLI leg: the real clone_cmd with --seed files for all sources of <= 2/3 words x seeds of <= 2/3 letters and seed pairs, local and HTTP archives; library leg: all sources of <= {} words x all single seeds of <= {n} letters and all ordered seed pairs of <= 2 letters each (letters: source words, junk words, a half word, a size-colliding junk word) + empty seed set + seed = source, per universe and hash length 64/8/4; distinct_nontrivial = distinct (write log, fetch list) outcomes", if thorough { 4 } else { 3 })));
+    rep.set("rule", json!(format!("CLI leg: the real clone_cmd with --seed files for all sources of <= 2/3 words x seeds of <= 2/3 letters and seed pairs, local and HTTP archives; library leg: all sources of <= {} words (+ 7 longer sources with runs / separated repeats of a chunk) x all single seeds of <= {n} letters and all ordered seed pairs of <= 2 letters each (letters: source words, junk words, a half word, a size-colliding junk word) + empty seed set + seed = source, per universe and hash length 64/8/4; distinct_nontrivial = distinct (write log, fetch list) outcomes", if thorough { 4 } else { 3 })));
     rep.assume("A1: no truncated-hash collision inside a scenario");
 }
 
@@ -489,7 +505,9 @@ fn c06_c13(rep: &mut Report, which: &str) {
     let thorough = rep.thorough();
     let lab = Lab::new(thorough);
     let n = if thorough { 4 } else { 3 };
-    let sh = shards(&lab, n, &[64, 4]);
+    let mut sh = shards(&lab, n, &[64, 4]);
+    let n_regular = sh.len();
+    sh.extend(dup_pattern_shards(&lab));
     let (lab_ref, sh_ref) = (&lab, &sh);
     let a = par_shards(sh.len(), threads(), |i| {
         let mut agg = Agg::default();
@@ -500,7 +518,8 @@ fn c06_c13(rep: &mut Report, which: &str) {
             Err(e) => machinery(e),
         };
         let (u, _) = &lab_ref.unis[s.ui];
-        for sc in mixed_scenarios(u, &arch, n) {
+        // (the longer duplicate-pattern sources take the scenario families at depth 2)
+        for sc in mixed_scenarios(u, &arch, if i >= n_regular { 2 } else { n }) {
             let m = model(&arch, &sc);
             if let Some(why) = &m.unusable {
                 agg.add("scenarios_outside_model", 1);
